@@ -26,6 +26,9 @@ pub struct LRow {
     pub host: Option<u8>,
     pub f: Option<i8>,
     pub i: Option<u8>,
+    /// the integer value is negative
+    #[serde(default)]
+    pub ineg: bool,
 }
 
 #[derive(Clone, Debug, Serialize, Deserialize)]
@@ -44,6 +47,10 @@ pub enum Leaf {
     /// separate classes (outside the core "supported forms")
     FloatColIntLit(u8, u8),
     FloatColNegLit(u8, u8),
+    /// value_i64 op decimal literal of either sign in steps of 0.5 (integral and fractional)
+    IntColFloatLit(u8, i8),
+    /// value_i64 op negative integer
+    IntColNegLit(u8, u8),
 }
 
 #[derive(Clone, Debug, Serialize, Deserialize)]
@@ -91,6 +98,17 @@ fn w_sql(w: &W, f: &mut WFlags) -> String {
                     f.neg = true;
                     ("value_f64", *o, format!("-{:.2}", (*v % 12) as f64 / 4.0))
                 }
+                Leaf::IntColFloatLit(o, v) => {
+                    f.int_vs_float = true;
+                    if *v < 0 {
+                        f.neg = true;
+                    }
+                    ("value_i64", *o, format!("{:.1}", (*v % 16) as f64 / 2.0))
+                }
+                Leaf::IntColNegLit(o, v) => {
+                    f.neg = true;
+                    ("value_i64", *o, format!("-{}", 1 + v % 7))
+                }
             };
             if *rev {
                 f.rev = true;
@@ -126,7 +144,7 @@ fn build(ts_type: u8, b: &LBatch, merge: i64, rid0: i64) -> RecordBatch {
         Arc::new(StringArray::from(b.rows.iter().map(|r| METRICS[r.metric as usize % 3]).collect::<Vec<_>>())),
         Arc::new(StringArray::from(b.rows.iter().map(|r| r.host.map(|h| HOSTS[h as usize % 4])).collect::<Vec<_>>())),
         Arc::new(Float64Array::from(b.rows.iter().map(|r| r.f.map(|v| v as f64 / 4.0)).collect::<Vec<_>>())),
-        Arc::new(Int64Array::from(b.rows.iter().map(|r| r.i.map(|v| (v % 8) as i64)).collect::<Vec<_>>())),
+        Arc::new(Int64Array::from(b.rows.iter().map(|r| r.i.map(|v| if r.ineg { -((v % 8) as i64) } else { (v % 8) as i64 })).collect::<Vec<_>>())),
         Arc::new(Int64Array::from((0..b.rows.len() as i64).map(|k| rid0 + k).collect::<Vec<_>>())),
     ];
     RecordBatch::try_new(schema(ts_type), cols).unwrap()
@@ -394,7 +412,7 @@ pub fn exec_topic(case: &TopicCase) -> Outcome {
 // ---- generators ------------------------------------------------------------------
 
 fn lrow() -> impl Strategy<Value = LRow> {
-    (prop::bool::weighted(0.7), 0u8..3, prop::option::weighted(0.85, 0u8..4), prop::option::weighted(0.85, -12i8..12), prop::option::weighted(0.85, 0u8..8)).prop_map(|(after, metric, host, f, i)| LRow { after, metric, host, f, i })
+    (prop::bool::weighted(0.7), 0u8..3, prop::option::weighted(0.85, 0u8..4), prop::option::weighted(0.85, -12i8..12), prop::option::weighted(0.85, 0u8..8), prop::bool::weighted(0.35)).prop_map(|(after, metric, host, f, i, ineg)| LRow { after, metric, host, f, i, ineg })
 }
 
 fn leaf(core_only: bool) -> BoxedStrategy<Leaf> {
@@ -407,7 +425,14 @@ fn leaf(core_only: bool) -> BoxedStrategy<Leaf> {
     if core_only {
         core.boxed()
     } else {
-        prop_oneof![2 => (0u8..6, 0u8..4).prop_map(|(o, v)| Leaf::FloatColIntLit(o, v)), 2 => (0u8..6, 1u8..12).prop_map(|(o, v)| Leaf::FloatColNegLit(o, v)), 1 => core].boxed()
+        prop_oneof![
+            2 => (0u8..6, 0u8..4).prop_map(|(o, v)| Leaf::FloatColIntLit(o, v)),
+            2 => (0u8..6, 1u8..12).prop_map(|(o, v)| Leaf::FloatColNegLit(o, v)),
+            3 => (0u8..6, -15i8..16).prop_map(|(o, v)| Leaf::IntColFloatLit(o, v)),
+            1 => (0u8..6, 0u8..7).prop_map(|(o, v)| Leaf::IntColNegLit(o, v)),
+            1 => core
+        ]
+        .boxed()
     }
 }
 
@@ -430,7 +455,7 @@ pub fn def() -> PropDef {
     PropDef {
         id: "C18",
         level: "exploration",
-        rule: "filter-direct / executor: 1-4 broadcast batches of 1-7 rows (Int64 or Timestamp(ns,UTC) timestamps one hour before / after the merge instant, 3 metrics per batch, nullable host / value_f64 / value_i64) and a WHERE tree (depth <=3) of comparisons (=,<>,<,<=,>,>= in either operand order; string literals on host / metric_name, non-negative integers on value_i64, decimal literals on value_f64) joined by AND / OR / parentheses; oracle = DataFusion's evaluation of the same WHERE on the same batch restricted to rows at/after the merge instant, compared in flush order; executor runs on the real broadcast channel and on a FilteredReceiver. literal-classes: the same with integer literals against the float column and negative literals. topic: filter trees of All / Shard / Tenant / Metrics / And / Or (incl. empty lists) vs an independent interpreter. Non-trivial = WHERE contains OR or a reversed comparison and some batch has both matching and non-matching rows (topic: some but not all batches match).",
+        rule: "filter-direct / executor: 1-4 broadcast batches of 1-7 rows (Int64 or Timestamp(ns,UTC) timestamps one hour before / after the merge instant, 3 metrics per batch, nullable host / value_f64 / value_i64) and a WHERE tree (depth <=3) of comparisons (=,<>,<,<=,>,>= in either operand order; string literals on host / metric_name, non-negative integers on value_i64, decimal literals on value_f64) joined by AND / OR / parentheses; oracle = DataFusion's evaluation of the same WHERE on the same batch restricted to rows at/after the merge instant, compared in flush order; executor runs on the real broadcast channel and on a FilteredReceiver. literal-classes: the same with integer literals against the float column, decimal literals of either sign (integral and fractional, steps of 0.5) against the integer column, negative literals, and negative integers in the data. topic: filter trees of All / Shard / Tenant / Metrics / And / Or (incl. empty lists) vs an independent interpreter. Non-trivial = WHERE contains OR or a reversed comparison and some batch has both matching and non-matching rows (topic: some but not all batches match).",
         assumptions: &["supported forms = a column compared with a numeric or string literal, combined with AND / OR / parentheses; NULL / boolean / timestamp literals, IN, BETWEEN and NOT are outside the generated domain", "the subscriber keeps up (channel capacity 256 > batches)"],
         subs: || {
             vec![
